@@ -7,13 +7,15 @@ PID = "C01"
 LEAN_MODULE = "NiVerif.Props.C01"
 NAMESPACE = "Props.C01"
 DRIVER = "drivers/Wfm.lean"
-GEN_MODULES = []
+GEN_MODULES = ["Geometry"]
 EXTRA_LEAN_MODULES = ["NiVerif.Model.WfmProto"]
 THEOREMS = ["view_shape", "ctorNew_spec", "ctorArr_spec", "setCapacity_spec", "setCount_spec", "setTiming_spec",
             "writeView_spec", "getData_spec", "increaseCapacity_spec", "appendArray_spec", "copyAll_spec",
             "appendWaveforms_spec", "loadData_spec", "inv_step", "inv_reachable", "view_refines",
             "Proofs.Wfm.view_append", "Proofs.Wfm.view_load", "Proofs.Wfm.view_grow", "Proofs.Wfm.view_write",
-            "Proofs.Wfm.window_ok"]
+            "Proofs.Wfm.window_ok",
+            "gen_window_eq_model", "gen_window_inside", "gen_provided_geometry_eq_model", "gen_provided_geometry_invariant", "gen_new_geometry_eq_model",
+            "gen_new_geometry_invariant", "gen_set_sample_count_eq_model", "gen_set_capacity_eq_model", "gen_set_capacity_keeps_window"]
 RULE = ("seeded histories of 1-14 (thorough: up to 40) public calls per object on the four container classes x every "
         "supported raw dtype: construction from sizes or arrays, append of arrays / waveforms / sequences, load_data "
         "with and without copy and with sub-ranges, capacity / sample_count / timing assignment, writes through the data "
